@@ -418,6 +418,8 @@ func c12(w *core.World, r *core.Report) {
 	}
 
 	ruleEqualLeaflist(w, r)
+	r.Rule("EQUAL-LIKE-WITH-LIKE", 3, "utils.EqualTypedValues compares like with like: an == / != between the results of two argument-less getters of the same receiver type calls the same getter on both sides (identityref value / module / prefix, decimal64 digits / precision).")
+	ruleSameGetter(w, r, "EQUAL-LIKE-WITH-LIKE")
 
 	// ---- CASE-GETTER
 	r.Rule("CASE-GETTER", 40, "inside 'case *T_XVal' every getter called on the switched TypedValue is GetXVal (a getter of another kind returns the zero value). Checked for every getter call in pkg/utils, pkg/tree and the netconf package that is guarded by a type assertion of the same value's oneof field.")
@@ -479,14 +481,7 @@ func c12(w *core.World, r *core.Report) {
 
 	// ---- LEAFLIST-RECURSE
 	r.Rule("LEAFLIST-RECURSE", 8, "every converter with a LeaflistVal case converts the elements by calling ITSELF inside the element loop (sibling agreement between leaf and leaf-list-element rendering): an element must get exactly the rendering a leaf of that kind gets.")
-	for _, t := range leaflistRecursive {
-		f := w.Func(t.Pkg, t.Recv, t.Name)
-		if f == nil {
-			continue
-		}
-		rec := core.RecursesInLoop(f)
-		r.Check(rec, "LEAFLIST-RECURSE", core.Site(f, "recurses for elements"), w.Pos(f.Pos()), "leaf-list elements are not converted by the converter itself")
-	}
+	ruleLeaflistRecurse(w, r, "LEAFLIST-RECURSE", nil)
 
 	// ---- LOSSY
 	r.Rule("LOSSY", 5, "no lossy numeric conversion (narrowing, sign change, float<->integer, 64-bit integer -> float) on a value that comes from a TypedValue numeric getter, a schema number or a strconv parse, in pkg/utils, pkg/tree, pkg/datastore and the netconf package; conversions whose source is bounded on the path (frozen, reasoned exceptions per function) are listed. Decides: no silent truncation / sign flip of values and schema bounds.")
@@ -641,6 +636,63 @@ func c12(w *core.World, r *core.Report) {
 						}
 					}
 				}
+			}
+		}
+	}
+
+	// ---- DECODE-USENUMBER
+	r.Rule("DECODE-USENUMBER", 1, "the JSON document of a container value that is handed to Converter.ExpandContainerValue (which renders every scalar with fmt and parses it by schema type) is decoded by a json.Decoder on which UseNumber() was called before Decode: with plain json.Unmarshal / Decode every number is a float64 first, integers above 2^53 are rounded and %v prints 1e+06 for a million.")
+	if ecv := w.Func("pkg/utils", "Converter", "ExpandContainerValue"); ecv != nil {
+		for _, f := range w.RepoFns {
+			if f.Pkg == nil || f == ecv || core.InBody(ecv, f) {
+				continue
+			}
+			for _, c := range core.OwnCalls(f) {
+				if c.Common().StaticCallee() != ecv {
+					continue
+				}
+				args := core.CallArgs(c)
+				if len(args) < 3 {
+					continue
+				}
+				core.WithHost(f, func() {
+					for _, o := range core.Origins(args[2]) {
+						ld, ok := o.(*ssa.UnOp)
+						if !ok {
+							continue
+						}
+						al, ok := ld.X.(*ssa.Alloc)
+						if !ok {
+							continue
+						}
+						// who fills the variable: json.Unmarshal(b, &v) / dec.Decode(&v)
+						for _, ref := range *al.Referrers() {
+							mi, ok := ref.(*ssa.MakeInterface)
+							if !ok {
+								continue
+							}
+							for _, r2 := range *mi.Referrers() {
+								dc, ok := r2.(*ssa.Call)
+								if !ok {
+									continue
+								}
+								site := core.Site(f, "document for ExpandContainerValue decoded with UseNumber")
+								switch {
+								case core.CalleeIs(dc, "encoding/json.Unmarshal"):
+									r.Viol("DECODE-USENUMBER", site, w.InstrPos(dc), "json.Unmarshal decodes every number of the document into a float64: 64-bit integers above 2^53 and long decimal64 values are altered before they are parsed by schema type")
+								case core.CalleeIs(dc, "encoding/json.Decoder.Decode"):
+									okNum := false
+									for _, un := range core.CallsTo(dc.Parent(), "encoding/json.Decoder.UseNumber") {
+										if core.SameObject(core.CallRecv(un), core.CallRecv(dc)) && core.InstrBefore(un, dc) {
+											okNum = true
+										}
+									}
+									r.Check(okNum, "DECODE-USENUMBER", site, w.InstrPos(dc), "the decoder must be told UseNumber() before Decode on every path: otherwise numbers become float64")
+								}
+							}
+						}
+					}
+				})
 			}
 		}
 	}
@@ -841,5 +893,21 @@ func ruleLeafrefTarget(w *core.World, r *core.Report) {
 			}
 		}
 		r.Check(ok, "LEAFREF-TARGET", core.Site(f, "leafref typed as its target"), w.Pos(f.Pos()), "the leafref case must convert with the target leaf's type")
+	}
+}
+
+// ruleLeaflistRecurse (C12, C10): the converters of the table convert leaf-list elements by calling themselves in the
+// element loop. only: restrict to these function names (nil: all).
+func ruleLeaflistRecurse(w *core.World, r *core.Report, rule string, only map[string]bool) {
+	for _, t := range leaflistRecursive {
+		if only != nil && !only[t.Name] {
+			continue
+		}
+		f := w.Func(t.Pkg, t.Recv, t.Name)
+		if f == nil {
+			continue
+		}
+		rec := core.RecursesInLoop(f)
+		r.Check(rec, rule, core.Site(f, "recurses for elements"), w.Pos(f.Pos()), "leaf-list elements are not converted by the converter itself")
 	}
 }
